@@ -161,7 +161,11 @@ def turn_oracle(case, tc, to, after_fault):
     rep = to["reply"]
     text = G.reply_text(rep)
     bot = G.sentinel(tc["bot"])
-    out_ids = [s[2] for s in steps if s[0] == "rail" and s[1] == "out" and s[3] and bot in s[3]]
+    # the output rails that ran on the bot message of this turn: those after the last generation call (a rail is shown the text its
+    # predecessor left, which need not carry the LLM text's token any more - a later rail may even rewrite it back)
+    gen_idx = [i for i, s in enumerate(steps) if s[0] == "llm" and s[1] in G.GEN_TASKS]
+    last_gen = max(gen_idx) if gen_idx else -1
+    out_ids = [s[2] for i, s in enumerate(steps) if s[0] == "rail" and s[1] == "out" and i > last_gen]
     carries_llm_text = bot in text
     rail_fault = [s for s in steps if s[0] == "rail" and G.verdict_of(tc, s[1], s[2]) == "f"]
     if rail_fault:
